@@ -133,12 +133,13 @@ def _widen(sizes):
 class ListOf(D):
     """A list whose length is one of the given concrete lengths (fork) - complete only for those lengths."""
 
-    def __init__(self, elt, lengths):
+    def __init__(self, elt, lengths, widen=True):
         self.elt = elt
         self.lengths = list(lengths)
+        self.widen = widen  # False: the thorough tier keeps the stated lengths (nested lists, where one more element multiplies the paths)
 
     def make(self, it, name, idx=()):
-        lengths = _widen(self.lengths)
+        lengths = _widen(self.lengths) if self.widen else list(self.lengths)
         n = it.path.choose([(n, True) for n in lengths], f"len:{name}")
         it.path.bounded_inputs.add(f"{name}: list length <= {max(lengths)}")
         return [self.elt.make(it, f"{name}[{i}]", idx) for i in range(n)]
